@@ -1,0 +1,56 @@
+//go:build verif
+
+package engine
+
+// Contracts for the engine entry points, read by the govc verifier (build tag verif).
+// This file contains no executable code.
+//
+//@ func StepWorkflowPaths
+//@   requires wf != nil
+//@   ensures [key-is-path-as-written] forall k string :: indom(result, k) ==> result[k] == k
+//@   ensures result != nil
+//@   loop 1 invariant forall k string :: indom(stepFilePaths, k) ==> stepFilePaths[k] == k
+//
+//@ pred cachesOK(cs []loadfile.FileCache) = forall i int :: 0 <= i && i < len(cs) ==> cs[i] == nil || wfcache(cs[i])
+//
+//@ func SubworkflowCache
+//@   requires wf != nil && converter != nil && cachesOK(flowCaches)
+//@   ensures [cache-or-error] result1 == nil ==> result == nil || wfcache(result)
+//
+//@ func cacheSubworkflows
+//@   requires wf != nil && converter != nil && ancestors != nil && cachesOK(flowCaches)
+//@   loop 1 invariant cachesOK(flowCaches)
+//@   ensures [cache-or-error] result1 == nil ==> result == nil || wfcache(result)
+//@   ensures [error-has-no-cache] result1 != nil ==> result == nil
+//
+//@ func SupportedVersion
+//@   ensures [supported-iff-listed] (result1 == nil) == indom(supportedVersions, version)
+//@   ensures result == version
+//
+//@ func (workflowEngine).Parse
+//@   requires wfcache(files)
+//@   ensures [workflow-or-error] (result1 == nil) != (result == nil)
+//
+//@ func (workflowEngine).RunWorkflow
+//@   requires wfcache(workflowContext)
+//@   ensures [error-shape] result3 != nil ==> result == "" && result1 == nil && result2 == true
+//
+//@ func (engineWorkflow).Run
+//@   requires e.workflow != nil
+//@   ensures [error-shape] result3 != nil ==> result == "" && result1 == nil && result2 == true
+//@   ensures [passes-execute-result-through] result3 == nil ==> result == callres(Execute, 1, 0) && result1 == callres(Execute, 1, 1)
+//@   ensures [error-flag-from-declared-output] result3 == nil ==> indom(outputSchemaOf(e.workflow), result) && \
+//@       result2 == outputSchemaOf(e.workflow)[result].ErrorValue
+//
+//@ func (engineWorkflow).Outputs
+//@   requires e.workflow != nil
+//@   ensures [same-outputs] forall k string :: indom(result, k) <==> indom(outputSchemaOf(e.workflow), k)
+//@   loop 1 invariant forall k string :: indom(outputs, k) <==> visited(k)
+//@   loop 1 invariant forall k string :: visited(k) ==> indom(outputSchemaOf(e.workflow), k)
+//
+//@ func iface Workflow.Run(ctx, input)
+//@   ensures [error-shape] result3 != nil ==> result == "" && result1 == nil && result2 == true
+//
+//@ func iface WorkflowEngine.Parse(workflowContext, workflowFileName)
+//@   ensures (result1 == nil) != (result == nil)
+//@ func iface Workflow.Namespaces()
